@@ -143,4 +143,39 @@ theorem jar_names_unique (calls : List CookieArgs) (j : Jar) (h : (j.map (·.key
 example : ((runJar [] [{ name := .str [97], value := .str [49] }, { name := .str [98], value := .str [50] },
                        { name := .str [97], value := .str [51] }]).1.map (·.key)) = [[98], [97]] := by rfl
 
+/-! ### cookies survive `clear()` and every way a handler can end -/
+
+theorem endState_jar (s : HState) (e : Ending) : (endState s e).jar = s.jar := by
+  cases e <;> rfl
+
+theorem hrun_jar (s : HState) (ops : List HOp) : (hrun s ops).1.jar = (runJar s.jar (cookieCalls ops)).1 := by
+  induction ops generalizing s with
+  | nil => rfl
+  | cons o rest ih =>
+    cases o with
+    | cookie a => simp only [hrun, hstep, cookieCalls, runJar, ih]
+    | clear => simp only [hrun, hstep, cookieCalls, ih]
+
+/-- **The error path keeps the cookies**: for every handler program (cookie calls interleaved with `clear()`) and
+every ending — `finish`, `send_error(status)`, `raise HTTPError(status)`, any other exception, `redirect` — the
+`Set-Cookie` values of the response (or the error of the cookie loop) are exactly those of the jar the cookie calls
+alone build: neither `clear()` nor the kind of ending adds, drops or changes a cookie. -/
+theorem ending_keeps_cookies (ops : List HOp) (e : Ending) :
+    (serveHandler ops e).2.map Prod.snd = flushCookies (runJar [] (cookieCalls ops)).1 := by
+  have hj : (endState (hrun {} ops).1 e).jar = (runJar [] (cookieCalls ops)).1 := by
+    rw [endState_jar, hrun_jar]
+  simp only [serveHandler, respond, hj]
+  cases flushCookies (runJar [] (cookieCalls ops)).1 <;> rfl
+
+/-- per-call outcomes do not depend on `clear()` either -/
+theorem hrun_outs_cookie (s : HState) (a : CookieArgs) (rest : List HOp) :
+    (hrun s (.cookie a :: rest)).2 = (setCookie s.jar a).2 :: (hrun { s with jar := (setCookie s.jar a).1 } rest).2 := rfl
+
+/-- non-vacuity: `clear_cookie`-like call, `clear()`, a second cookie, then `raise HTTPError(403)`: status 403 and
+both cookies -/
+example : serveHandler [.cookie { name := .str [97], value := .str [49] }, .clear,
+                        .cookie { name := .str [98], value := .str [50], httponly := true }] (.raiseHTTP 403)
+    = ([none, none, none], .ok (403, [[97, 61, 49, 59, 32, 80, 97, 116, 104, 61, 47],
+        [98, 61, 50, 59, 32, 72, 116, 116, 112, 79, 110, 108, 121, 59, 32, 80, 97, 116, 104, 61, 47]])) := by rfl
+
 end TornadoModel.C25
